@@ -39,6 +39,9 @@ func init() { hx.Register("C13", Run) }
 
 const nSeries, nTimes = 4, 6
 
+// share of the random histories that are built as drop + purge rounds (parts.go)
+const roundsPercent = 35
+
 // ---------------------------------------------------------------------------------------------
 // predicates
 
@@ -310,6 +313,13 @@ type history struct {
 	written     map[string]bool // phys|series|time written at least once
 	overwritten map[string]bool // physical names in which some (series,time) was written twice
 	droppedPhys map[string]bool
+
+	// index parts (parts.go)
+	tsidKid       map[uint64]int   // tsid -> series number
+	seen          map[int][]uint64 // series number -> its tsids, ascending
+	mergeFinish   func() error     // second half of a merge of index parts that has begun
+	purges        int
+	partialPurges int // purges that rewrote some parts of the index table and left others as they were
 }
 
 func (h *history) kid(phys string, s int) int {
@@ -946,6 +956,59 @@ func (h *history) writeRows(rows []engx.Row) error {
 	return nil
 }
 
+// writeSimple writes one row per (measurement, series, time) given, with random fields, keeping
+// the book-keeping of doWrite (a measurement n_* never gets a second row for one (series,time)).
+func (h *history) writeSimple(in []engRow) error {
+	r := h.r
+	var rows []engx.Row
+	for _, x := range in {
+		row := engx.Row{Mst: x.mst, Series: x.s, T: x.t, Fields: map[string]string{}}
+		if strings.HasPrefix(row.Mst, "n") {
+			free := false
+			for try := 0; try < nTimes && !free; try++ {
+				if !h.written[fmt.Sprintf("%s|%d|%d", row.Mst, row.Series, row.T)] {
+					free = true
+					break
+				}
+				row.T = (row.T + 1) % nTimes
+			}
+			if !free {
+				continue
+			}
+		}
+		dup := false
+		for _, y := range rows {
+			if y.Mst == row.Mst && y.Series == row.Series && y.T == row.T {
+				dup = true
+			}
+		}
+		if dup {
+			continue
+		}
+		wk := fmt.Sprintf("%s|%d|%d", row.Mst, row.Series, row.T)
+		if h.written[wk] {
+			h.overwritten[row.Mst] = true
+		}
+		h.written[wk] = true
+		for _, f := range engx.FieldNames {
+			if r.Chance(45) {
+				row.Fields[f] = genVal(r, f)
+			}
+		}
+		if len(row.Fields) == 0 || r.Chance(40) {
+			row.Fields["fi"] = genVal(r, "fi")
+		}
+		if row.T > h.hiT {
+			h.hiT = row.T
+		}
+		rows = append(rows, row)
+	}
+	if len(rows) == 0 {
+		return nil
+	}
+	return h.writeRows(rows)
+}
+
 func (h *history) files() map[string]map[string]bool {
 	out := map[string]map[string]bool{}
 	for _, m := range h.msts {
@@ -1259,6 +1322,7 @@ func (h *history) restartTaint(crash bool) {
 }
 
 func (h *history) doReopen() error {
+	h.doMergeEnd()
 	h.restartTaint(false)
 	var e error
 	perr := hx.Safe(func() {
@@ -1287,6 +1351,7 @@ func (h *history) doReopen() error {
 }
 
 func (h *history) doCrash() error {
+	h.doMergeEnd()
 	h.restartTaint(true)
 	img := engx.ScratchDir("c13img")
 	var e error
@@ -1337,7 +1402,8 @@ func runHistory(c *hx.Ctx, r *hx.Rng, idx, maxOps int, purge bool) error {
 	h := &history{c: c, r: r, idx: idx, dir: engx.ScratchDir("c13"), nParts: []int{1, 2, 4}[r.Intn(3)],
 		cat: &meta.Data{ClusterPtNum: 1}, phys: map[string]string{}, kids: map[string]int{},
 		sp: spec{cells: map[int]map[int]map[string]string{}}, inc: map[int]int{}, walInc: map[int]int{},
-		purgeOK: purge, stalePhys: map[string]bool{}, droppedPhys: map[string]bool{}, written: map[string]bool{}, overwritten: map[string]bool{}}
+		purgeOK: purge, stalePhys: map[string]bool{}, droppedPhys: map[string]bool{}, written: map[string]bool{}, overwritten: map[string]bool{},
+		tsidKid: map[uint64]int{}, seen: map[int][]uint64{}}
 	defer func() { os.RemoveAll(h.dir) }()
 	if err := h.open(); err != nil {
 		return err
@@ -1357,12 +1423,24 @@ func runHistory(c *hx.Ctx, r *hx.Rng, idx, maxOps int, purge bool) error {
 	if err := h.doWrite([]string{"aa", "zz"}); err != nil {
 		return err
 	}
+	h.indexObs(false)
 	nOps := 4 + r.Intn(maxOps)
+	if purge && h.phys["m"] != "" && h.phys["n"] != "" && r.Chance(roundsPercent) {
+		// a history of drop + purge rounds over several index parts (parts.go)
+		nOps = 0
+		h.kinds += "R"
+		c.Count("history:drop-purge-rounds")
+		if err := h.runRounds(2 + r.Intn(3)); err != nil {
+			return err
+		}
+		c.Count(fmt.Sprintf("rounds-history:purges-that-left-a-part=%d", min(h.partialPurges, 3)))
+	}
 	for i := 0; i < nOps; i++ {
 		tag := ""
+		restarted := false
 		p := r.Intn(100)
 		switch {
-		case p < 36:
+		case p < 33:
 			targets := []string{}
 			for _, l := range h.liveLogical() {
 				targets = append(targets, h.phys[l])
@@ -1382,6 +1460,18 @@ func runHistory(c *hx.Ctx, r *hx.Rng, idx, maxOps int, purge bool) error {
 				return err
 			}
 			tag = "write"
+		case p < 36:
+			switch {
+			case h.mergeFinish != nil:
+				h.doMergeEnd()
+				tag = "index merge ends"
+			case r.Chance(60):
+				h.doIndexMerge()
+				tag = "index merge"
+			default:
+				h.doMergeBegin()
+				tag = "index merge begins"
+			}
 		case p < 50:
 			h.doFlush()
 			tag = "flush"
@@ -1419,21 +1509,25 @@ func runHistory(c *hx.Ctx, r *hx.Rng, idx, maxOps int, purge bool) error {
 			if !h.purgeOK {
 				continue
 			}
-			h.simple("purge", "p", func() error { return h.sh.PurgeDeleted() })
+			h.doPurge()
 			tag = "purge"
 		case p < 96:
 			if err := h.doReopen(); err != nil {
 				return err
 			}
 			tag = "reopen"
+			restarted = true
 		default:
 			if err := h.doCrash(); err != nil {
 				return err
 			}
 			tag = "crash"
+			restarted = true
 		}
+		h.indexObs(restarted)
 		h.readChecks(fmt.Sprintf("op %d %s", i, tag))
 	}
+	h.doMergeEnd()
 	// catalogue epilogue: the mark / drop protocol of policy and database
 	for i, n := 0, 3+r.Intn(8); i < n; i++ {
 		ops := []string{"rpmark", "rpdrop", "rpcreate", "dbmark", "dbdrop", "dbcreate", "mcreate", "mmark", "resolve", "resolve"}
@@ -1452,6 +1546,7 @@ func runHistory(c *hx.Ctx, r *hx.Rng, idx, maxOps int, purge bool) error {
 			}
 		}
 	}
+	h.doMergeEnd()
 	c.Case(fmt.Sprintf("%d:%s", idx, h.kinds), h.dropSome && h.afterDrop)
 	if h.dropSome && h.afterDrop {
 		c.Sample(fmt.Sprintf("history %d ops=%s walParts=%d measurements=%v finding-precondition=%q", idx, h.kinds, h.nParts, h.msts, h.taint))
@@ -1484,20 +1579,26 @@ func Run(c *hx.Ctx) error {
 // (and their safe counterparts), a purge after a drop that leaves a neighbour in the same tag
 // rows, a drop in a measurement followed by another one in index order.
 var directed = []string{
-	"w m 0 0;w m 1 0;d m eq:host:h0;r",         // unflushed rows of the dropped series, clean restart
-	"w m 0 0;w m 1 0;d m eq:host:h0;t;k",       // the same with a crash image
-	"w m 0 0;w m 1 0;f;d m eq:host:h0;k",       // flushed, dropped, killed before the deleted-tsid table is flushed
+	"w m 0 0;w m 1 0;d m eq:host:h0;r",                 // unflushed rows of the dropped series, clean restart
+	"w m 0 0;w m 1 0;d m eq:host:h0;t;k",               // the same with a crash image
+	"w m 0 0;w m 1 0;f;d m eq:host:h0;k",               // flushed, dropped, killed before the deleted-tsid table is flushed
 	"w m 0 0;w m 1 0;f;d m eq:host:h0;t;k;w m 0 1;f;r", // flushed + index flush interval: stays dropped; written again
 	"w m 0 0;w m 2 0;f;d m eq:host:h0;t;p;r;w m 0 1;r", // purge: the row zone=z0 -> [h0,h2] keeps h2
 	"w m 0 0;w m 2 0;f;d m eq:host:h2;t;p;r;w m 2 1;r", // purge: ... and keeps h0
-	"w m 0 0;w m 1 0;w zz 0 0;f;d m -;t;k",       // another measurement follows in the index
+	"w m 0 0;w m 1 0;w zz 0 0;f;d m -;t;k",             // another measurement follows in the index
+	// rounds of drop + purge over several index parts (every write batch that creates a series makes a part)
+	"w m 0 0;w m 1 0;w m 2 0;f;d m eq:host:h0;t;p;d m eq:host:h1;t;p;r;w m 0 1;r",                        // a purge leaves two parts as they are, the next drop names a series of one of them
+	"w m 0 0;w m 1 0;w m 2 0;f;d m eq:host:h2;t;p;im 0,1;d m eq:host:h0;t;p;k;d m -;t;p;r",               // a merge between the rounds, a crash image, a last round that empties the measurement
+	"w m 0 0;w m 1 0;f;mb 0,1;d m eq:host:h0;t;p;me;r",                                                   // a purge while a merger holds the parts: nothing may be forgotten
+	"w m 0 0;w m 1 0;w m 2 0;f;mb 0;d m re:host:h0+h1;t;p;me;p;r;w m 0 1;w m 1 1;f;d m eq:host:h0;t;p;r", // ... the next purge finishes; the series written again get new tsids and one is dropped again
 }
 
 func runDirected(c *hx.Ctx, idx int, script string) error {
 	h := &history{c: c, r: hx.NewRng(uint64(idx) + 77), idx: idx, dir: engx.ScratchDir("c13"), nParts: 2,
 		cat: &meta.Data{ClusterPtNum: 1}, phys: map[string]string{}, kids: map[string]int{},
 		sp: spec{cells: map[int]map[int]map[string]string{}}, inc: map[int]int{}, walInc: map[int]int{},
-		purgeOK: true, stalePhys: map[string]bool{}, droppedPhys: map[string]bool{}, written: map[string]bool{}, overwritten: map[string]bool{}}
+		purgeOK: true, stalePhys: map[string]bool{}, droppedPhys: map[string]bool{}, written: map[string]bool{}, overwritten: map[string]bool{},
+		tsidKid: map[uint64]int{}, seen: map[int][]uint64{}}
 	defer func() { os.RemoveAll(h.dir) }()
 	if err := h.open(); err != nil {
 		return err
@@ -1508,6 +1609,7 @@ func runDirected(c *hx.Ctx, idx int, script string) error {
 	for i, st := range strings.Split(script, ";") {
 		f := strings.Fields(st)
 		tag := st
+		restarted := false
 		switch f[0] {
 		case "w":
 			s, _ := strconv.Atoi(f[2])
@@ -1521,15 +1623,48 @@ func runDirected(c *hx.Ctx, idx int, script string) error {
 			h.simple("tick", "t", func() error { h.sh.FlushIndexes(); return nil })
 			h.pend = false
 		case "p":
-			h.simple("purge", "p", func() error { return h.sh.PurgeDeleted() })
+			h.doPurge()
 		case "r":
 			if err := h.doReopen(); err != nil {
 				return err
 			}
+			restarted = true
 		case "k":
 			if err := h.doCrash(); err != nil {
 				return err
 			}
+			restarted = true
+		case "im", "mb":
+			// merge of the index parts at the given positions (table order), whole / first half
+			var pos []int
+			for _, x := range strings.Split(f[1], ",") {
+				n, _ := strconv.Atoi(x)
+				pos = append(pos, n)
+			}
+			parts, e := h.indexParts()
+			if e != "" {
+				return fmt.Errorf("index parts: %s", e)
+			}
+			var ok []int
+			for _, i := range pos {
+				if i < len(parts) {
+					ok = append(ok, i)
+				}
+			}
+			if f[0] == "mb" {
+				h.mergeBeginAt(parts, ok)
+			} else {
+				var n int
+				var err error
+				perr := hx.Safe(func() { n, err = h.sh.MergeIndexParts(ok) })
+				ans := fmt.Sprintf("ok %d", n)
+				if perr != "" || err != nil {
+					ans = errText(perr, err)
+				}
+				h.c.Emit("imerge "+h.firstEntries(parts, ok), ans)
+			}
+		case "me":
+			h.doMergeEnd()
 		case "d":
 			p := &pred{op: "all"}
 			if f[2] != "-" {
@@ -1538,9 +1673,11 @@ func runDirected(c *hx.Ctx, idx int, script string) error {
 			}
 			h.dropSeriesWith(f[1], p)
 		}
+		h.indexObs(restarted)
 		h.readChecks(fmt.Sprintf("directed op %d %s", i, tag))
 		h.readChecks(fmt.Sprintf("directed op %d %s", i, tag))
 	}
+	h.doMergeEnd()
 	c.Case(fmt.Sprintf("directed:%d", idx), true)
 	return h.sh.Close()
 }
